@@ -5,6 +5,7 @@ package json
 import (
 	"github.com/goccy/go-json/internal/decoder"
 	"github.com/goccy/go-json/internal/encoder"
+	"github.com/goccy/go-json/internal/runtime"
 )
 
 // Re-exports of internal hooks for the /verif correspondence harness (which cannot import
@@ -20,3 +21,8 @@ func VerifAppendString(html, norm bool, s string) []byte {
 	return encoder.VerifAppendString(html, norm, s)
 }
 func VerifDecodeString(buf []byte) string { return decoder.VerifDecodeString(buf) }
+
+func VerifTypeLinks() ([][2]uintptr, bool)                { return runtime.VerifTypeLinks() }
+func VerifTypeAddr() (base, max, rng, shift uintptr)      { return encoder.VerifTypeAddr() }
+func VerifEncCacheIndex(typeptr uintptr) (int, bool, int) { return encoder.VerifCacheIndex(typeptr) }
+func VerifDecCacheIndex(typeptr uintptr) (int, bool, int) { return decoder.VerifCacheIndex(typeptr) }
